@@ -362,6 +362,11 @@ type runner struct {
 	reset   bool
 	dead    bool
 	big     bool
+
+	// scripted 0-RTT rejection scenario (`zrtt`): op index at which it starts (-1 = not in this case) and
+	// the ops still to be issued
+	zrttAt int
+	script []string
 }
 
 func newRunner(t *testing.T, r *vh.Rand) vh.Runner {
@@ -708,6 +713,64 @@ func (rn *runner) genFrame(r *vh.Rand) string {
 	return fmt.Sprintf("%s %d", kind, id)
 }
 
+// zrttScript: a resumed connection whose 0-RTT is rejected. The transport parameters remembered from the
+// session ticket arrive first and some streams are opened under them (also a blocked OpenStreamSync caller);
+// then ResetFor0RTT, the parameters of the new handshake — smaller than, equal to or larger than the
+// remembered ones, per stream type — and UseResetMaps (in either order); finally the new limit of each type
+// is used up and one more stream is asked for (plus, sometimes, a blocking caller), so that the monitors
+// outgoing_within_limit / blocked_carries_limit / blocked_sent_when_blocked meet exactly the limits of the
+// new handshake.
+func (rn *runner) zrttScript(r *vh.Rand) []string {
+	var rem, nw [2]int64 // 0 = uni, 1 = bidi
+	for i := range rem {
+		if rn.ts[i].peerLimit > 1000 {
+			return nil
+		}
+		rem[i] = rn.ts[i].peerLimit + r.Range(1, 4)
+	}
+	s := []string{fmt.Sprintf("params %d %d", rem[1], rem[0])}
+	for n := r.Range(0, 3); n > 0; n-- {
+		s = append(s, "open "+tn(r.Bool()))
+	}
+	if r.Chance(30) {
+		rn.nextCid++
+		s = append(s, fmt.Sprintf("opensync %s %d 0", tn(r.Bool()), rn.nextCid))
+	}
+	s = append(s, "reset0rtt")
+	for i := range nw {
+		switch r.Pick(45, 15, 15, 25) {
+		case 0:
+			nw[i] = r.Range(0, rem[i]-1)
+		case 1:
+			nw[i] = rem[i]
+		case 2:
+			nw[i] = rem[i] + r.Range(1, 2)
+		default:
+			nw[i] = r.Range(0, 2)
+		}
+	}
+	p := fmt.Sprintf("params %d %d", nw[1], nw[0])
+	if r.Chance(25) {
+		s = append(s, "usereset", p)
+	} else {
+		s = append(s, p, "usereset")
+	}
+	for i := 1; i >= 0; i-- {
+		n := nw[i]
+		if n > 6 {
+			n = 6 // do not open more than a few streams; the limit is then not reached
+		}
+		for k := int64(0); k <= n; k++ {
+			s = append(s, "open "+tn(i == 1))
+		}
+		if r.Chance(30) {
+			rn.nextCid++
+			s = append(s, fmt.Sprintf("opensync %s %d 0", tn(i == 1), rn.nextCid))
+		}
+	}
+	return s
+}
+
 const quicvarintMax = int64(1)<<62 - 1
 
 func tn(bidi bool) string {
@@ -726,10 +789,22 @@ func (rn *runner) GenOp(r *vh.Rand, i int) string {
 		if r.Bool() {
 			p = "s"
 		}
+		rn.zrttAt = -1
+		if r.Chance(12) {
+			rn.zrttAt = int(r.Range(1, 25))
+		}
 		return fmt.Sprintf("new %s %d %d", p, rn.genLimit(r), rn.genLimit(r))
 	}
 	if rn.dead {
 		return ""
+	}
+	if len(rn.script) == 0 && i == rn.zrttAt && !rn.closed && !rn.reset {
+		rn.script = rn.zrttScript(r)
+	}
+	if len(rn.script) > 0 {
+		op := rn.script[0]
+		rn.script = rn.script[1:]
+		return op
 	}
 	if i == 1 && r.Chance(60) {
 		// the peer's transport parameters usually arrive first
